@@ -475,7 +475,7 @@ theorem start_runP (fl : Flavor) (m : Machine) (u : UEnv) (hwf : WF m.root) (hi 
         cases hh : (transientLoop (hooksFlagged u m) Flavor.sync m u m.maxIterations s1).err with
         | none => simp [hh] at herr
         | some _ => simp [hh]
-      · right; exact (drainLoop_equiv hP _ (St.equiv.refl m _) ht).2
+      · right; exact (drainLoop_equiv hP _ _ (St.equiv.refl m _) ht).2
   | async =>
     show (asyncStart m u {}).err ≠ none ∨ RunP m (asyncStart m u {})
     have hP0 := runInv_of_hooks _ (hooksAsyncStart_ok u m) (hooksAsyncStart_traceOK u m) .async m u hwf hi hsel hd
@@ -576,31 +576,19 @@ theorem transientLoop_histQ (hQ : RecClosed m Q) (h : Hooks) (htr : HooksTraceOK
         · exact hs
 
 theorem drainLoop_histQ (hQ : RecClosed m Q) (u : UEnv) :
-    ∀ (budget : Nat) (s : St), Q s.hist → Q (drainLoop m u budget s).hist := by
-  intro budget
-  induction budget with
-  | zero => intro s hs; simp only [drainLoop]; split <;> exact hs
-  | succ b ih =>
-    intro s hs
-    cases hq : s.queue with
-    | nil => simp only [drainLoop, hq]; exact hs
-    | cons q rest =>
-      obtain ⟨e, sf⟩ := q
-      simp only [drainLoop, hq]
-      split
-      · exact hs
-      · have h1 : Q (emit ("#recv:" ++ e.type) { s with queue := rest }).hist := hs
-        have h2 := processEvent_histQ hQ (hooksFlagged u m) (hooksFlagged_traceOK u m) .sync u e _ h1
-        have h3 := transientLoop_histQ hQ (hooksFlagged u m) (hooksFlagged_traceOK u m) .sync u m.maxIterations _ h2
-        split
-        · exact h3
-        · exact ih _ h3
+    ∀ (fuel c : Nat) (s : St), Q s.hist → Q (drainLoop m u fuel c s).hist := by
+  apply drainLoop_ind m u (fun s => Q s.hist)
+  · intro s q hs; exact hs
+  · intro s e hs
+    have h1 : Q (emit ("#recv:" ++ e.type) s).hist := hs
+    have h2 := processEvent_histQ hQ (hooksFlagged u m) (hooksFlagged_traceOK u m) .sync u e _ h1
+    exact transientLoop_histQ hQ (hooksFlagged u m) (hooksFlagged_traceOK u m) .sync u m.maxIterations _ h2
 
 theorem syncSend_histQ (hQ : RecClosed m Q) (u : UEnv) (e : Ev) (s : St) (hs : Q s.hist) :
     Q (syncSend m u e s).hist := by
   unfold syncSend sndUnflagged drainFlagged
   split
-  · exact drainLoop_histQ hQ u _ _ hs
+  · exact drainLoop_histQ hQ u _ _ _ hs
   · exact hs
 
 theorem asyncProcess_histQ (hQ : RecClosed m Q) (u : UEnv) (e : Ev) (s : St) (hs : Q s.hist) :
@@ -662,7 +650,7 @@ theorem syncTail_histQ (hQ : RecClosed m Q) (u : UEnv) (x : St) (hx : Q x.hist) 
   · exact hx
   · split
     · exact h3
-    · exact drainLoop_histQ hQ u _ _ h3
+    · exact drainLoop_histQ hQ u _ _ _ h3
 
 theorem asyncTail_histQ (hQ : RecClosed m Q) (u : UEnv) (x : St) (hx : Q x.hist) :
     Q (if x.err.isSome then { x with status := "stopped" } else
